@@ -24,6 +24,16 @@ QEq(x, y) == QSub(x, y).n = RZero
 QRe(x) == [n |-> <<x.n[1], x.n[2], 0, 0>>, d |-> x.d]
 QIm(x) == [n |-> <<x.n[3], x.n[4], 0, 0>>, d |-> x.d]
 QIsReal(x) == x.n[3] = 0 /\ x.n[4] = 0
+(* inverse in the field Q(sqrt2, i):  1/n = conj(n) (p - q sqrt2) / (p^2 - 2 q^2)  with  n conj(n) = p + q sqrt2 *)
+QInv(x) == LET n == x.n
+               nn == RMul(n, RConj(n))                      \* = <<p, q, 0, 0>>
+               g == GCD2(AbsI(nn[1]), AbsI(nn[2]))
+               p == nn[1] \div g  q == nn[2] \div g          \* n conj(n) = g (p + q sqrt2)
+               den == p * p - 2 * q * q                      \* 1/n = conj(n) (p - q sqrt2) / (g den)
+               num == IF q = 0 THEN RConj(n) ELSE RMul(RConj(n), <<p, -q, 0, 0>>)
+               dd == IF q = 0 THEN g * p ELSE g * den
+               h == GCD2(x.d, AbsI(dd))
+           IN IF dd > 0 THEN QNorm(RScale(x.d \div h, num), dd \div h) ELSE QNorm(RScale(-(x.d \div h), num), (-dd) \div h)
 
 (* matrices: Seq of rows *)
 MRows(M) == Len(M)
